@@ -80,6 +80,12 @@ func (dl *dialLimiter) freeFDToken() {
 		// Skip over canceled dials instead of queuing up a goroutine.
 		if next.cancelled() {
 			dl.freePeerToken(next)
+			// freePeerToken may have resumed a dial waiting on the peer limit,
+			// which then took the FD token we just freed. Don't hand out more
+			// tokens than we have.
+			if dl.fdConsuming >= dl.fdLimit {
+				return
+			}
 			continue
 		}
 		dl.fdConsuming++
